@@ -1032,6 +1032,16 @@ func (c *Compiler) buildListChildren(
 			}
 		}
 		ch := c.BuildNode(inherited, m, dataDef, isKey)
+		if isKey {
+			// RFC 6020 7.8.2: "All key leafs in a list MUST have the same
+			// value for their config as the list itself"
+			for _, sn := range ch {
+				if sn.Config() != inherited.config {
+					c.error(dataDef, fmt.Errorf(
+						"List key must have the same config as the list"))
+				}
+			}
+		}
 		for _, sn := range ch {
 			if c.filter != nil && !c.filter(sn) {
 				continue
